@@ -1311,6 +1311,7 @@ def check_C07(ctx):
         streams.append(bytes(rng.choice(alpha) for _ in range(L)))
     for _ in range(ctx.n(300, 5000)):
         streams.append(garbage_stream(ctx))
+    streams += reject_runs(ctx)
     def variants(s):
         return [("file", rng.choice([0, 1]), rng.choice([7, 7, 7, 2, 5, 0]), rng.choice([1, 1, 0]), rng.choice([0, 3]), rng.choice([0, 1]), 1)]
     lines, meta = readp_lines(ctx, streams, variants)
